@@ -1,7 +1,7 @@
 (* ReaderSafe.v — the feature-table reader, the GenBank reader, the FASTA
    reader and the scanners never reach the Panic outcome, for any input. *)
 From GTS Require Import Base Arith Tables Pars Loc LocParse Seq Origin Insdc GenBank Fasta
-     BaseLemmas ParsLemmas Safety JoinSafe LocSafe GenBankProofs.
+     BaseLemmas ParsLemmas Safety JoinSafe LocSafe GenBankProofs OriginSafe.
 From Coq Require Import Lia.
 Open Scope Z_scope.
 
@@ -367,27 +367,27 @@ Proof.
   tryp Hp; [apply IH|apply safe_ret].
 Qed.
 
-Lemma run_safe {A} (m : M A) input : safe m -> fst (m (st_of input)) <> Panic.
+Lemma run_safe {A} (m : M A) input : zlen input <= input_bound -> safe m -> fst (m (st_of input)) <> Panic.
 Proof.
-  intros H. pose proof (H (st_of input) (wf_st_of input)) as G.
+  intros Hb H. pose proof (H (st_of input) (wf_st_of input Hb)) as G.
   destruct (m (st_of input)) as [[a|k| |] s']; cbn [fst]; try discriminate. contradiction.
 Qed.
 
-Theorem scan_fasta_no_panic input : scan_fasta input <> Panic.
-Proof. unfold scan_fasta. apply run_safe. apply safe_scan_loop, safe_fasta_parser. Qed.
+Theorem scan_fasta_no_panic input : zlen input <= input_bound -> scan_fasta input <> Panic.
+Proof. intros Hb. unfold scan_fasta. apply run_safe; [exact Hb|]. apply safe_scan_loop, safe_fasta_parser. Qed.
 
-Theorem table_parser_no_panic reg input : fst (table_parser [] reg (st_of input)) <> Panic.
-Proof. apply run_safe, safe_table_parser. Qed.
+Theorem table_parser_no_panic reg input : zlen input <= input_bound -> fst (table_parser [] reg (st_of input)) <> Panic.
+Proof. intros Hb. apply run_safe; [exact Hb|apply safe_table_parser]. Qed.
 
 Section WithOrigin2.
   Hypothesis Horigin : forall len, safe (origin_block_parser len).
 
-  Theorem scan_genbank_no_panic_given reg input : scan_genbank reg input <> Panic.
-  Proof. unfold scan_genbank. apply run_safe. apply safe_gb_scan_loop, Horigin. Qed.
+  Theorem scan_genbank_no_panic_given reg input : zlen input <= input_bound -> scan_genbank reg input <> Panic.
+  Proof. intros Hb. unfold scan_genbank. apply run_safe; [exact Hb|]. apply safe_gb_scan_loop, Horigin. Qed.
 
-  Theorem auto_scan_no_panic_given reg input : auto_scan reg input <> Panic.
+  Theorem auto_scan_no_panic_given reg input : zlen input <= input_bound -> auto_scan reg input <> Panic.
   Proof.
-    unfold auto_scan. apply run_safe.
+    intros Hb. unfold auto_scan. apply run_safe; [exact Hb|].
     apply safe_bind; [apply safe_at_end|]. intros [|]; [apply safe_ret|].
     apply safe_bind; [apply push_spec|]. intros _.
     tryp (safe_genbank_parser Horigin reg).
@@ -400,3 +400,10 @@ Section WithOrigin2.
       + apply safe_bind; [apply pop_spec|]. intros _. apply safe_ret.
   Qed.
 End WithOrigin2.
+
+(* with the ORIGIN block reader proved safe (OriginSafe.v) *)
+Theorem scan_genbank_no_panic reg input : zlen input <= input_bound -> scan_genbank reg input <> Panic.
+Proof. apply scan_genbank_no_panic_given. exact safe_origin_block_parser. Qed.
+
+Theorem auto_scan_no_panic reg input : zlen input <= input_bound -> auto_scan reg input <> Panic.
+Proof. apply auto_scan_no_panic_given. exact safe_origin_block_parser. Qed.
